@@ -188,7 +188,7 @@ class CheckRun:
 
     # ------------------------------------------------------------------
     def log(self, *a):
-        print(f"[{self.pid} {time.time() - self.t0:6.1f}s]", *a, flush=True)
+        print(f"[{self.pid} {time.time() - self.t0:6.1f}s]", *a, flush=True, file=sys.__stdout__)
 
     def count(self, key, n=1):
         self.dist[key] = self.dist.get(key, 0) + n
@@ -360,7 +360,7 @@ class CheckRun:
             k = self._match_known(v)
             if k is not None:
                 if v.sig not in self.known_hit:
-                    print(f"KNOWN-FINDING: property={self.pid} {k['what']}")
+                    print(f"KNOWN-FINDING: property={self.pid} {k['what']}", file=sys.__stdout__, flush=True)
                 self.known_hit[v.sig] = self.known_hit.get(v.sig, 0) + 1
             else:
                 real.append(v)
@@ -409,10 +409,10 @@ class CheckRun:
         (VERIF / "evidence").mkdir(exist_ok=True)
         (VERIF / "evidence" / f"{self.pid}.json").write_text(json.dumps(jsonable(ev), indent=1))
         for l in lines:
-            print(l)
+            print(l, file=sys.__stdout__, flush=True)
         self.log(f"done: theorems {self.discharged}/{self.obligations}, cases {self.evaluations}, "
                  f"nontrivial {len(self.nontrivial_keys)}, violations {len(real)}, known {sum(self.known_hit.values())}")
-        sys.stdout.flush()
+        sys.__stdout__.flush()
         sys.exit(1 if real else 0)
 
 
